@@ -82,6 +82,16 @@ theorem summary_outputs {Tx} (cfg : DescribeCfg) (H : Hashes) (C : TxCodec Tx) (
   · intro j o po ho hp
     exact (describe_output_at h ho hp).2.2.1
 
+/-- what is spent is counted per OUTPUT, not per payee: `spend` is the sum of all outputs not labelled change
+    (several of them may pay one address) and the batch flag says that there is more than one such output -/
+theorem summary_spend_counts_outputs {Tx} (cfg : DescribeCfg) (H : Hashes) (C : TxCodec Tx) (O : Oracles)
+    (cm : Dict Bytes) (p : Psbt Tx) (s : Summary) (h : describe cfg H C O cm p = some s) :
+    s.spend = ((s.outputs.filter (fun d => !d.isChange)).map (·.sats)).sum ∧
+    s.isBatch = decide ((s.outputs.filter (fun d => !d.isChange)).length > 1) := by
+  obtain ⟨outs, hinv, ho, hs, hb⟩ := describe_spendInv h
+  rw [ho, hs, hb, hinv.spd, hinv.cnt]
+  exact ⟨rfl, rfl⟩
+
 /-- at most one output is labelled change, and `change` is its amount (0 if there is none) -/
 theorem summary_single_change {Tx} (cfg : DescribeCfg) (H : Hashes) (C : TxCodec Tx) (O : Oracles) (cm : Dict Bytes)
     (p : Psbt Tx) (s : Summary) (h : describe cfg H C O cm p = some s) :
